@@ -81,6 +81,7 @@ type Event struct {
 	O     Opts            `json:"o"`
 	In    string          `json:"in"`
 	Out   string          `json:"out"`
+	Out0  string          `json:"out0"` // js with Precision != 0: output under the same options with Precision = 0
 	Err   bool            `json:"err"`
 	Panic bool            `json:"panic"`
 	Msg   string          `json:"msg"`
@@ -664,6 +665,11 @@ func main() {
 				ev.Msg = msg
 			}
 		} else {
+			if c.Lang == "js" && c.O.Precision != 0 {
+				n := c.O
+				n.Precision = 0
+				ev.Out0, _, _, _ = minifyLib(c.Lang, n, c.In)
+			}
 			ev.Ti, ev.TiErr = tokens(c.Lang, c.In)
 			ev.To, ev.ToErr = tokens(c.Lang, ev.Out)
 			if c.Lang == "html" && (c.O.KeepComments || c.O.KeepSpecialComments || c.O.KeepDefaultAttrVals || c.O.KeepQuotes) {
